@@ -126,12 +126,14 @@ def b_int(I, args, kwargs):
             _raise("ValueError", "invalid literal for int()")
     if isinstance(v, Sym) and v.kind == "str":
         # int(s): ValueError unless s is an (optionally signed, whitespace-padded) decimal literal; modelled for plain digits
-        ok = I.fresh("int_parses", "bool")
-        if not I.ctx.branch(ok.t):
+        okf = z3.Function("int.parses", z3.StringSort(), z3.BoolSort())(v.t)
+        I.ctx.assume(z3.Implies(okf, z3.Length(v.t) > 0))          # int('') raises
+        I.ctx.assume(z3.Implies(z3.StrToInt(v.t) >= 0, okf))       # plain decimal digit strings parse
+        if not I.ctx.branch(okf):
             _raise("ValueError", "invalid literal for int()")
-        r = I.fresh("int_of_str", "int")
-        I.ctx.assume(z3.Implies(z3.StrToInt(v.t) >= 0, r.t == z3.StrToInt(v.t)))
-        return r
+        r = z3.Function("int.of_str", z3.StringSort(), z3.IntSort())(v.t)
+        I.ctx.assume(z3.Implies(z3.StrToInt(v.t) >= 0, r == z3.StrToInt(v.t)))
+        return Sym(r, "int")
     if isinstance(v, float):
         return int(v)
     if v is None or isinstance(v, (list, dict, tuple, set, SObj)):
@@ -170,6 +172,16 @@ def b_enumerate(I, args, kwargs):
 
 def b_zip(I, args, kwargs):
     return [tuple(t) for t in zip(*[ops.iterate(I, a, None) for a in args])]
+
+
+def b_map(I, args, kwargs):
+    f = args[0]
+    return [I.call(f, list(t), {}) for t in zip(*[ops.iterate(I, a, None) for a in args[1:]])]
+
+
+def b_filter(I, args, kwargs):
+    f = args[0]
+    return [x for x in ops.iterate(I, args[1], None) if I.to_bool(I.call(f, [x], {}) if f is not None else x)]
 
 
 def b_reversed(I, args, kwargs):
